@@ -188,7 +188,7 @@ func RunAll(rep *core.Report, props map[string]bool, scripts []Script, cfgs []Co
 }
 
 // ReplayFile re-executes the script stored in a replay file.
-func ReplayFile(rep *core.Report, props map[string]bool, path string) {
+func ReplayFile(rep *core.Report, props map[string]bool, path string) bool {
 	b, err := os.ReadFile(path)
 	if err != nil {
 		core.Infra("read replay: %v", err)
@@ -202,7 +202,11 @@ func ReplayFile(rep *core.Report, props map[string]bool, path string) {
 	if err := json.Unmarshal(b, &f); err != nil {
 		core.Infra("parse replay: %v", err)
 	}
+	if len(f.Replay.Script.H) == 0 {
+		return false // not a cluster script: a replay file of another stage of the same check
+	}
 	RunAll(rep, props, []Script{f.Replay.Script}, []Config{f.Replay.Config}, 0, 1)
+	return true
 }
 
 // Main is the common driver of the cluster checks.
@@ -215,8 +219,10 @@ func Main(rep *core.Report, args *core.Args, props map[string]bool, stages []Sta
 		core.Infra("no progress for %s while %s", since, label)
 	})
 	if args.Replay != "" {
-		ReplayFile(rep, props, args.Replay)
-		rep.Finish()
+		if ReplayFile(rep, props, args.Replay) {
+			rep.Finish()
+		}
+		return
 	}
 	cfgs := StdConfigs(!args.Quick())
 	for _, st := range stages {
